@@ -100,7 +100,9 @@ class TabularEnv(AbstractEnv):
         return {}
 
     def transition_info(self, state, action, next_state):
-        return {}
+        # depends on the action it is handed, so wrappers that map actions are observable here too
+        a, x = self._a(action)
+        return {"action_bucket": a, "action_value": x, "next_s": next_state.s}
 
     def default_renderer(self):
         raise NotImplementedError
